@@ -59,7 +59,7 @@ pub fn check(b: &[u8], sink: &mut Sink) {
         let (recs, stop, first_ok) = match exp {
             Ok(x) => x,
             Err(p) => {
-                sink.violation(format!("{} {} panic", name, hexs(b)), format!("single-record parser panics: {}", p), json!({"kind":"many","input":hexs(b)}));
+                sink.violation(format!("{} {} panic", name, key_of(b)), format!("single-record parser panics: {}", p), json!({"kind":"many","input":enc_input(b)}));
                 continue;
             }
         };
@@ -95,9 +95,9 @@ pub fn check(b: &[u8], sink: &mut Sink) {
         };
         if let Some(w) = bad {
             sink.violation(
-                format!("{} {}", name, hexs(b)),
-                format!("{}({}): {}", name, hexshort(b), w),
-                json!({"kind":"many","input":hexs(b)}),
+                format!("{} {}", name, key_of(b)),
+                format!("{}({}): {:.600}", name, hexshort(b), w),
+                json!({"kind":"many","input":enc_input(b)}),
             );
         }
     }
@@ -109,9 +109,9 @@ pub fn check(b: &[u8], sink: &mut Sink) {
     sink.count("tls_parser", if a.is_ok() { "Ok" } else { "not-Ok" });
     if a != p {
         sink.violation(
-            format!("tls_parser {}", hexs(b)),
-            format!("tls_parser({}) = {:?} but parse_tls_plaintext gives {:?}", hexshort(b), a, p),
-            json!({"kind":"many","input":hexs(b)}),
+            format!("tls_parser {}", key_of(b)),
+            format!("tls_parser({}) = {:.300} but parse_tls_plaintext gives {:.300}", hexshort(b), format!("{:?}", a), format!("{:?}", p)),
+            json!({"kind":"many","input":enc_input(b)}),
         );
     }
 }
